@@ -97,9 +97,14 @@ class C17(Check):
             else:
                 ops = [("extra", b"x", Opts(large=large)), ("endlocal",), ("write", central), ("endextra",)]
                 exp_local, exp_central = b"", central
-            ops += [("write", b"file data"), ("finish",)]
+            if r.random() < 0.25:
+                # no end_extra_data: the next call (another entry, or finish) ends the extra data -- with the same validation
+                variant += "/implicit"
+                ops = ops[:-1] + r.choice([[("file", b"next", Opts()), ("write", b"n"), ("finish",)], [("finish",)], [("dir", b"nd", Opts()), ("finish",)]])
+            else:
+                ops += [("write", b"file data"), ("finish",)]
             progs.append(ops)
-            ok = valid_extra(exp_local, large) and (variant in ("shared", "local-only") or valid_extra(exp_central, large))
+            ok = valid_extra(exp_local, large) and (variant.split("/")[0] in ("shared", "local-only") or valid_extra(exp_central, large))
             metas.append(dict(k="extra", local=exp_local.hex(), central=exp_central.hex(), valid=ok, large=large, variant=variant))
         lines, outs = wprog.with_tables(self.exes["debug"], [dict(ops=o) for o in progs])
         cases = list(zip(lines, metas))
